@@ -3,6 +3,8 @@ import PdfModel.Lemmas.Sequence
 import PdfModel.Lemmas.Render
 import PdfModel.Lemmas.ParserCursor
 import PdfModel.Lemmas.RenderTail
+import PdfModel.Lemmas.ParserFlags
+import PdfModel.Lemmas.ParserEnc
 import PdfModel.Generated.Lexical
 
 /-!
@@ -255,6 +257,107 @@ theorem parse_render_sequence_partial (env : Env R) (hd : env.decrypt = none) (f
   have := parse_sequence_partial env hd items hsz [] rest pre.length fuel hok Gap.nil hs (by simpa using hah) hfuel
   rw [hl]; simpa using this
 
+/-- **`ParseFlags`: the exact acceptance condition.**  For every conformant spelling of `v` (same hypotheses as
+    `parse_spelling_partial`) and *every* flag set: `parse_with_lexer_ctx` returns the value iff the set contains the bit of
+    `v`'s kind (`flagOf`: NULL, INTEGER, NUMBER, BOOL, STRING, NAME, ARRAY, DICT, REF), and otherwise returns `Err`
+    (`PrimitiveNotAllowed`).  The look-ahead cases are included: an integer is accepted under INTEGER (alone or with REF)
+    and rejected under REF alone — after the look-ahead has run and been rolled back —, `n g R` is accepted under REF and
+    rejected under INTEGER alone. -/
+theorem parse_flags_exact (env : Env R) (hd : env.decrypt = none) (v : Prim R) (txt : List UInt8)
+    (hsp : Spells env.parseReal v txt) (hk : KeysDistinct v) (hu : namesUtf8 v = true) (hdepth : vdepth v ≤ maxDepth)
+    {buf : Buf} (hsz : buf.size ≤ 2147483647) (g rest : List UInt8) (pos fuel : Nat) (ctx : Option (Nat × Nat))
+    (hg : Gap g) (hs : Suffix buf pos (g ++ txt ++ rest)) (hb : needsBnd v = true → Bnd rest)
+    (hah : Ahead buf (pos + g.length + txt.length)) (hfuel : need v ≤ fuel) (hf2 : 2 ≤ fuel) (flags : Nat) :
+    parseCtx env buf fuel pos ctx flags maxDepth =
+      if flags &&& flagOf v = 0 then .err else .ok (v, pos + g.length + txt.length) := by
+  by_cases hfl : flags &&& flagOf v = 0
+  · rw [if_pos hfl]
+    exact parseCtx_reject env v txt hsp g rest pos fuel ctx flags maxDepth hg hfl hs hb hah hf2
+  · rw [if_neg hfl]
+    exact parse_spelling_partial env hd v txt hsp hk hu hdepth hsz g rest pos fuel ctx hg hs hb hah hfuel flags hfl
+
+/-- **… and a rejected parse restores the cursor**: under a flag set that does not admit the value the lexer ends where
+    it started (`parse_err_restores_pos` applied to the rejection). -/
+theorem parse_flags_reject (env : Env R) (v : Prim R) (txt : List UInt8) (hsp : Spells env.parseReal v txt)
+    {buf : Buf} (g rest : List UInt8) (pos fuel : Nat) (ctx : Option (Nat × Nat)) (flags depth : Nat) (hg : Gap g)
+    (hfl : flags &&& flagOf v = 0) (hs : Suffix buf pos (g ++ txt ++ rest)) (hb : needsBnd v = true → Bnd rest)
+    (hah : Ahead buf (pos + g.length + txt.length)) (hfuel : 2 ≤ fuel) :
+    parseCtx env buf fuel pos ctx flags depth = .err ∧ parseCtxC env buf fuel pos ctx flags depth = (.err, pos) := by
+  have h1 := parseCtx_reject env v txt hsp g rest pos fuel ctx flags depth hg hfl hs hb hah hfuel
+  have h2 : (parseCtxC env buf fuel pos ctx flags depth).1 = .err := by
+    rw [parseCtxC_fst env buf fuel pos ctx flags depth hs.le]; exact h1
+  exact ⟨h1, Prod.ext h2 (parseCtxC_err env buf fuel pos ctx flags depth hs.le h2)⟩
+
+/-- **Encrypted spellings** (`Spec/SyntaxEnc`: every string of `v` replaced by its ciphertext under the key of the
+    object `id gen`, then spelled — literal or hexadecimal, any layout).  Parsing in the context of that object with a
+    decryptor `d` that inverts the encryptor `e` on that key returns the plaintext value `v`, for every value, layout,
+    object number and generation.  `e`, `d` are parameters (RC4 / AES are third-party code); the inverse law is the
+    explicit hypothesis. -/
+theorem parse_spelling_encrypted (env : Env R) (d e : Nat → Nat → List UInt8 → List UInt8) (id gen : Nat)
+    (hinv : ∀ s, d id gen (e id gen s) = s) (v : Prim R) (txt : List UInt8)
+    (hsp : PdfSyntax.SpellsEnc env.parseReal e id gen v txt)
+    (hk : KeysDistinct v) (hu : namesUtf8 v = true) (hdepth : vdepth v ≤ maxDepth) {buf : Buf} (hsz : buf.size ≤ 2147483647)
+    (g rest : List UInt8) (pos fuel : Nat) (hg : Gap g) (hs : Suffix buf pos (g ++ txt ++ rest))
+    (hb : needsBnd v = true → Bnd rest) (hah : Ahead buf (pos + g.length + txt.length)) (hfuel : need v ≤ fuel)
+    (flags : Nat) (hfl : flags &&& flagOf v ≠ 0) :
+    parseCtx (PdfShift.withDec env d) buf fuel pos (some (id, gen)) flags maxDepth = .ok (v, pos + g.length + txt.length) :=
+  parseCtx_enc env d e id gen hinv v txt hsp hk hu hdepth hsz g rest pos fuel hg hs hb hah hfuel flags hfl
+
+/-- **Headline for encrypted indirect objects**: `parse_indirect_object` with a decoder ∘ `renderIndirect` of the encrypted
+    value = the plaintext value, for every tape of layout choices, every tail, every object number and generation; the
+    cursor rests right after `endobj`. -/
+theorem parse_render_indirect_encrypted (env : Env R) (d e : Nat → Nat → List UInt8 → List UInt8) (fmt : R → List UInt8)
+    (v : Prim R) (id gen : Nat) (hinv : ∀ s, d id gen (e id gen s) = s) (tail : List UInt8) (tape : List Nat)
+    (hr : PdfSpec.Renderable fmt env.parseReal v) (hk : KeysDistinct v) (hu : namesUtf8 v = true) (hdepth : vdepth v ≤ maxDepth)
+    (hid : id ≤ 18446744073709551615) (hgen : gen ≤ 18446744073709551615) :
+    ∃ objText rest, (PdfSpec.renderIndirect fmt id gen (PdfSyntax.encrypted e id gen v) tail tape).1 = objText ++ rest ∧
+      ∀ {buf : Buf}, buf.size ≤ 2147483647 → ∀ (pre : List UInt8) (fuel : Nat),
+        buf.toList = pre ++ (PdfSpec.renderIndirect fmt id gen (PdfSyntax.encrypted e id gen v) tail tape).1 → need v ≤ fuel →
+        parseIndirectObject (PdfShift.withDec env d) buf fuel pre.length Flags.any =
+          .ok (((id, gen), v), pre.length + objText.length) := by
+  have hr' : PdfSpec.Renderable fmt env.parseReal (PdfSyntax.encrypted e id gen v) :=
+    renderable_mapStrings fmt env.parseReal (e id gen) v hr
+  obtain ⟨a, g1, b, g2, g3, tv, g4, g5, eq, h1, h2, h3, h4, h5, h6, h7, h8, h9, h10, h11, h12, h13⟩ :=
+    PdfSpec.renderIndirect_spec fmt env.parseReal id gen (PdfSyntax.encrypted e id gen v) tail hr' tape
+  refine ⟨[] ++ a ++ g1 ++ b ++ g2 ++ kwObj ++ g3 ++ tv ++ g4 ++ kwEndobj, g5 ++ tail, eq, ?_⟩
+  intro buf hsz pre fuel hbuf hfuel
+  have hs : Suffix buf pre.length ([] ++ a ++ g1 ++ b ++ g2 ++ kwObj ++ g3 ++ tv ++ g4 ++ kwEndobj ++ (g5 ++ tail)) := by
+    rw [eq] at hbuf
+    exact suffix_of_toList hbuf
+  have sh := sameShape_mapStrings (e id gen) v
+  exact parseIndirectObject_enc env d e id gen hinv v tv h8 hk hu hdepth hsz [] a g1 b g2 g3 g4 (g5 ++ tail) pre.length fuel
+    Gap.nil h1 h2 h3 h4 h5 h6 hid hgen h7 h9 hs h11 (fun hb => h12 (by rw [PdfSyntax.encrypted, sh.nb]; exact hb)) h13 hfuel
+    Flags.any (any_allows v)
+
+/-- **Encrypted stream objects**: the strings of the stream dictionary are decrypted with the object key, the `file_range`
+    covers exactly the (still encrypted) data: decrypting the data is the business of the stream layer, not of the parser. -/
+theorem parse_stream_encrypted (env : Env R) (d e : Nat → Nat → List UInt8 → List UInt8) (id gen : Nat)
+    (hinv : ∀ s, d id gen (e id gen s) = s) (info : Dict R) (data txt : List UInt8)
+    (hsp : PdfSyntax.SpellsStreamEnc env.parseReal e id gen info data txt) (hk : KeysDistinctE info)
+    (hnd : (keysOf info).Nodup) (hu : namesUtf8E info = true) (hlen : LengthIs env info data.length)
+    {buf : Buf} (hsz : buf.size ≤ 2147483647)
+    (g0 a g1 b g2 g3 g4 rest : List UInt8) (pos fuel : Nat) (hg0 : Gap g0)
+    (ha : PdfSyntax.NatTok a id) (hb : PdfSyntax.NatTok b gen) (hg1 : Gap g1) (hg1ne : g1 ≠ []) (hg2 : Gap g2)
+    (hg2ne : g2 ≠ []) (hid : id ≤ 18446744073709551615) (hgen : gen ≤ 18446744073709551615) (hg3 : Gap g3) (hg4 : Gap g4)
+    (hg4ne : g4 ≠ [])
+    (h : Suffix buf pos (g0 ++ a ++ g1 ++ b ++ g2 ++ kwObj ++ g3 ++ txt ++ g4 ++ kwEndobj ++ rest))
+    (hbnd : Bnd rest) (hfuel : 2 + needE info ≤ fuel) (hdepth : 1 + vdepthE info ≤ maxDepth) :
+    ∃ dataPos, parseIndirectObject (PdfShift.withDec env d) buf fuel pos Flags.any =
+        .ok (((id, gen), streamAt env info (id, gen) dataPos data.length),
+          pos + (g0 ++ a ++ g1 ++ b ++ g2 ++ kwObj ++ g3 ++ txt ++ g4 ++ kwEndobj).length) ∧
+      slice buf dataPos (dataPos + data.length) = data :=
+  parseIndirectObject_stream_enc env d e id gen hinv info data txt hsp hk hnd hu hlen hsz g0 a g1 b g2 g3 g4 rest pos fuel
+    hg0 ha hb hg1 hg1ne hg2 hg2ne hid hgen hg3 hg4 hg4ne h hbnd hfuel hdepth
+
+/-- **A failing decryptor ⇒ `Err`**: a string object whose ciphertext the decryptor rejects is not read as garbage, the
+    parse fails (and, by `parse_err_restores_pos`, the cursor is put back). -/
+theorem parse_string_decrypt_fails (env : Env R) (f : Nat → Nat → List UInt8 → Out (List UInt8)) (hdec : env.decrypt = some f)
+    (id gen : Nat) (c : List UInt8) (hfail : f id gen c = .err) (txt : List UInt8) (hsp : Spells env.parseReal (.str c) txt)
+    {buf : Buf} (hsz : buf.size ≤ 2147483647) (g rest : List UInt8) (pos fuel : Nat) (depth flags : Nat)
+    (hfl : flags &&& Flags.string ≠ 0) (hg : Gap g) (hs : Suffix buf pos (g ++ txt ++ rest)) (hfuel : 2 ≤ fuel) :
+    parseCtx env buf fuel pos (some (id, gen)) flags depth = .err :=
+  parseCtx_str_decrypt_fails env f hdec id gen c hfail txt hsp hsz g rest pos fuel depth flags hfl hg hs hfuel
+
 /-- **What may follow an object**: the decidable criterion `safeTail` (`Spec/Tail`: after white-space and comments
     the tail is empty, or starts a lexeme that is not `R` / `stream` and, if it is an integer, is not followed by `R`)
     guarantees the side condition `Ahead` of the theorems above, whatever gap precedes the tail; and every tail the
@@ -426,6 +529,65 @@ example :
     (match parse unitEnv sampleText.toArray Flags.any with
      | .ok (.arr [.int 1, .name [65, 32, 66], .str [97, 41, 43, 98], .str [65], .real ()], 34) => true
      | _ => false) = true := by decide +kernel
+
+/-! ### non-vacuity of the encrypted-spelling theorems: a toy cipher (reversal, its own inverse) -/
+
+def revCipher : Nat → Nat → List UInt8 → List UInt8 := fun _ _ s => s.reverse
+
+/-- `[(abc) 7]` stored in object `7 0` as `[(cba) 7]`: `SpellsEnc` holds and the theorem gives back `abc` -/
+example : parseCtx (PdfShift.withDec unitEnv revCipher) (#[91, 40, 99, 98, 97, 41, 32, 55, 93] : Buf) 20 0 (some (7, 0)) Flags.any maxDepth
+    = .ok (.arr [.str [97, 98, 99], .int 7], 9) := by
+  have hsp : PdfSyntax.SpellsEnc unitEnv.parseReal revCipher 7 0 (.arr [.str [97, 98, 99], .int 7] : Prim Unit)
+      [91, 40, 99, 98, 97, 41, 32, 55, 93] := by
+    simp only [PdfSyntax.SpellsEnc, PdfSyntax.encrypted, PdfSyntax.mapStrings, PdfSyntax.mapStringsL, revCipher, Spells]
+    refine ⟨[], _, rfl, Gap.nil, ?_⟩
+    refine ⟨[40, 99, 98, 97, 41], [32], _, rfl, ?_, Gap.ws 32 [] (by decide) Gap.nil, ?_, fun h => by simp [needsBnd] at h⟩
+    · simp only [Spells]; left
+      exact ⟨_, rfl, PdfSyntax.LitBody.plain 99 _ _ _ (by decide) (by decide) (by decide) (by decide)
+        (PdfSyntax.LitBody.plain 98 _ _ _ (by decide) (by decide) (by decide) (by decide)
+          (PdfSyntax.LitBody.plain 97 _ _ _ (by decide) (by decide) (by decide) (by decide) PdfSyntax.LitBody.close))⟩
+    · refine ⟨[55], [], _, rfl, ?_, Gap.nil, by simp [PdfSyntax.SpellsElems], fun _ => by simp [Bnd]; decide⟩
+      simp only [Spells]
+      exact ⟨⟨[55], by simp, by simp [PdfSyntax.Digits, PdfSyntax.isDig], Or.inl ⟨rfl, by decide⟩⟩, by decide, by decide⟩
+  have := parse_spelling_encrypted unitEnv revCipher revCipher 7 0 (fun s => by simp [revCipher]) _ _ hsp
+    (by simp [KeysDistinct, PdfSyntax.KeysDistinctL]) (by decide) (by decide) (buf := #[91, 40, 99, 98, 97, 41, 32, 55, 93])
+    (by decide) [] [] 0 20 Gap.nil (by simp [Suffix]) (fun h => by simp [needsBnd] at h) (Or.inl (by decide +kernel)) (by decide)
+    Flags.any (by decide)
+  simpa using this
+
+/-- and the model computes it (kernel evaluation of `7 0 obj[(cba) 7]endobj` with the decoder) -/
+example :
+    (match parseIndirectObject (PdfShift.withDec unitEnv revCipher)
+        (#[55, 32, 48, 32, 111, 98, 106, 91, 40, 99, 98, 97, 41, 32, 55, 93, 101, 110, 100, 111, 98, 106] : Buf) 60 0 Flags.any with
+     | .ok (((7, 0), .arr [.str [97, 98, 99], .int 7]), 22) => true
+     | _ => false) = true := by decide +kernel
+
+/-! ### the look-ahead cases of `parse_flags_exact`, evaluated (flags: INTEGER = 1, REF = 512) -/
+
+def outcome {α : Type} : Out (Prim α × Nat) → Nat
+  | .ok (.int _, p) => 100 + p
+  | .ok (.ref _ _, p) => 200 + p
+  | .ok _ => 300
+  | .err => 0
+  | _ => 999
+
+/-- `12` (end of buffer: the member of an object stream, the D42-style restricted request for an indirect `/Length`
+    asks with INTEGER only): accepted under INTEGER and INTEGER|REF, rejected under REF alone and under NAME -/
+example : (outcome (parseWithLexer unitEnv #[49, 50] 20 0 1), outcome (parseWithLexer unitEnv #[49, 50] 20 0 513),
+    outcome (parseWithLexer unitEnv #[49, 50] 20 0 512), outcome (parseWithLexer unitEnv #[49, 50] 20 0 16)) = (102, 102, 0, 0) := by
+  decide +kernel
+
+/-- `12 0 R`: a reference under REF and INTEGER|REF; under INTEGER alone it is rejected (not read as the integer 12) -/
+example : (outcome (parseWithLexer unitEnv #[49, 50, 32, 48, 32, 82] 20 0 512),
+    outcome (parseWithLexer unitEnv #[49, 50, 32, 48, 32, 82] 20 0 513),
+    outcome (parseWithLexer unitEnv #[49, 50, 32, 48, 32, 82] 20 0 1)) = (206, 206, 0) := by
+  decide +kernel
+
+/-- `12 0 obj`: the look-ahead reads `0` and `obj`, rolls back: the integer 12 under INTEGER; rejected under REF alone with
+    the cursor back at the start -/
+example : outcome (parseWithLexer unitEnv #[49, 50, 32, 48, 32, 111, 98, 106] 20 0 1) = 102 ∧
+    (match parseWithLexerC unitEnv #[49, 50, 32, 48, 32, 111, 98, 106] 20 0 512 with | (.err, 0) => true | _ => false) = true := by
+  decide +kernel
 
 end C03
 
